@@ -14,7 +14,10 @@ MINIMUMS = (2000, 300)
 NOW = core.PINNED_NOW
 BRANCHES = ["main", "master", "develop", "developx", "develop/1", "release/3", "release/3/fix", "release/x", "release/x/12", "release/007",
             "release/4294967296", "release", "releasex/3", "release-3", "feature/login", "feature/42/login", "feature/x-9", "hotfix/7",
-            "12", "a/b/c/5", "release/+5", "feature/+42/login", "+3", "release/-3", "release/5x/6", "release/x5/6", "feature/٣/4", "release/4294967296/5", "release/0/1", "dev", "x", "Feature/UPPER", "user/joe/fix-1", "release//3", "rc/1", "bugfix/ISSUE-42", "wip_2", "a", "d", "f", "b", "c", "e", "g"]
+            "12", "a/b/c/5", "release/+5", "feature/+42/login", "+3", "release/-3", "release/5x/6", "release/x5/6", "feature/٣/4", "release/4294967296/5", "release/0/1", "dev", "x", "Feature/UPPER", "user/joe/fix-1", "release//3", "rc/1", "bugfix/ISSUE-42", "wip_2", "a", "d", "f", "b", "c", "e", "g",
+            # the rule patterns in another letter case: git branch names are case-sensitive, `Release/3` is not under `release/`
+            "Develop", "DEVELOP", "Release/3", "RELEASE/7", "Main", "Hotfix/7", "Feature/login", "User/joe/fix-1", "X", "releasE/3/fix",
+            "refs/heads/release/3", "origin/develop", "heads/develop"]
 
 
 def rand_branch(rng):
@@ -38,10 +41,10 @@ def rand_rules(rng):
     for _ in range(rng.randrange(1, 5)):
         kind = rng.random()
         if kind < 0.4:
-            pat = rng.choice(["develop", "main", "release", "release/3", "x", "feature/login", "12"])
+            pat = rng.choice(["develop", "main", "release", "release/3", "x", "feature/login", "12", "Develop", "X"])
             rules.append(dict(pattern=pat, label=rng.choice(["alpha", "beta", "rc"]), num=rng.choice([0, 1, 5, 42, 2 ** 32 - 1]), mode=rng.choice(["commit", "tag"])))
         elif kind < 0.85:
-            pat = rng.choice(["release/*", "feature/*", "hotfix/*", "a/*", "release/3/*", "user/joe/*", "develop/*"])
+            pat = rng.choice(["release/*", "feature/*", "hotfix/*", "a/*", "release/3/*", "user/joe/*", "develop/*", "Release/*", "FEATURE/*"])
             rules.append(dict(pattern=pat, label=rng.choice(["alpha", "beta", "rc"]), num=None, mode=rng.choice(["commit", "tag"])))
         else:
             rules.append(dict(pattern="*", label=rng.choice(["alpha", "beta", "rc"]), num=None, mode=rng.choice(["commit", "tag"])))
